@@ -1,5 +1,5 @@
 /-
-  C02 — Assembler accepts exactly the well-formed programs.   (proved both ways for structured programs: acceptance ⇒ well-formed, well-formed ⇒ accepted)
+  C02 — Assembler accepts exactly the well-formed programs.   (proved as one iff: `assemble_ok_iff`)
   Proved, for every state and statement, each decision of the two passes in the form the property states it:
   the location counter advances exactly while the block stays at or below xFE00 and the error names the condition
   (I/O page vs. wrap); labels and statements outside a block, `.end` without `.orig`, nested `.orig`, unclosed `.orig`
@@ -16,14 +16,21 @@
   Converse for pass 1 and for the whole assembler (`first_pass_accepts`, `assemble_accepts`, Lemmas/Pass1Accepts.lean): a
   structured program whose blocks stay at or below xFE00 and whose label bindings, made in order, never bind a name to two
   addresses passes pass 1; if moreover every statement converts and no two non-empty blocks overlap, `assemble` succeeds.
-  Not proved: that pass 1 accepts *only* such programs as one statement (the per-decision theorems above give each error);
-  these are what the correspondence check decides with an independent well-formedness scan over programs with injected faults.
+  **One statement** (`assemble_ok_iff`, with `pass1_iff` from Lemmas/Pass1Conv.lean, the converse of Pass1Accepts): a statement
+  list assembles if and only if it is a sequence of closed, non-nested `.orig … .end` blocks with only `.external`
+  declarations outside them and is `WellFormed`: no label outside a block or on an `.orig`; every block at or below xFE00
+  (no wrap, nothing in the I/O page); the label bindings made in program order (each label at its statement's location
+  counter, each `.external` at 0, names compared after upper-casing) never bind a name to two addresses; every statement
+  converts against the resulting table (label operands defined, not external, in range; `.fill` labels defined); no
+  non-empty block overlaps another.  "Returns an error whose kind names a violated condition" is given by the per-decision
+  theorems above and checked by the correspondence oracle on programs with injected faults.
 -/
 import Lc3V.Lemmas.C01Core
 import Lc3V.Props.C01
 import Lc3V.Lemmas.Disjoint
 import Lc3V.Lemmas.Pass2Iff
 import Lc3V.Lemmas.Pass1Accepts
+import Lc3V.Lemmas.Pass1Conv
 set_option linter.unusedSimpArgs false
 namespace Lc3V.C02
 open Lc3V
@@ -237,8 +244,60 @@ theorem assemble_accepts (blks : List Blk) (tail : List Stmt) (src : Option (Lis
   rw [hp2]
   exact ⟨_, rfl⟩
 
+/-- the conditions under which a structured program assembles -/
+def WellFormed (blks : List Blk) (tail : List Stmt) (src : Option (List Char)) : Prop :=
+  (∀ b ∈ blks, (∀ s ∈ b.gap, s.labels = []) ∧ b.origS.labels = [] ∧ BodyFits b.a.toNat b.body) ∧ (∀ s ∈ tail, s.labels = []) ∧
+  (∃ m, labelFold [] (progBindings blks tail) = .ok m) ∧
+  ∀ t, pass1 (blks.flatMap Blk.stmts ++ tail) src = .ok t →
+    (∀ b ∈ blks, ∃ ws, bodyWords t b.a b.body = .ok ws) ∧ blks.Pairwise (BlkClear t)
+
+/-- **a structured program assembles exactly when it is well-formed**: no label outside a block or on an `.orig`, every block
+    at or below xFE00, consistent label bindings, every statement convertible against the resulting symbol table (label
+    operands defined, not external, in range; `.fill` labels defined) and no non-empty block overlapping another -/
+theorem assemble_iff (blks : List Blk) (tail : List Stmt) (src : Option (List Char))
+    (hwf : ∀ b ∈ blks, b.WF ∧ ∀ s ∈ b.gap, isExternal s.nucleus = true) (ht : ∀ s ∈ tail, isExternal s.nucleus = true) :
+    (∃ obj, assemble (blks.flatMap Blk.stmts ++ tail) src = .ok obj) ↔ WellFormed blks tail src := by
+  constructor
+  · rintro ⟨obj, h⟩
+    unfold assemble at h
+    cases h1 : pass1 (blks.flatMap Blk.stmts ++ tail) src with
+    | error e => rw [h1] at h; cases h
+    | ok t =>
+      rw [h1] at h
+      dsimp only at h
+      obtain ⟨c1, c2, c3⟩ := (pass1_iff blks tail src hwf ht).mp ⟨t, h1⟩
+      refine ⟨c1, c2, c3, fun t' ht' => ?_⟩
+      rw [h1] at ht'; cases ht'
+      unfold pass2 at h
+      cases hf : (blks.flatMap Blk.stmts ++ tail).foldlM (pass2Step t) ⟨[], none⟩ with
+      | error e => rw [hf] at h; cases h
+      | ok st => exact (second_pass_iff t blks tail hwf ht).mp ⟨st, hf⟩
+  · rintro ⟨c1, c2, c3, c4⟩
+    exact assemble_accepts blks tail src
+      (fun b hb => ⟨(hwf b hb).1, fun s hs => ⟨(hwf b hb).2 s hs, (c1 b hb).1 s hs⟩, (c1 b hb).2.1, (c1 b hb).2.2⟩)
+      (fun s hs => ⟨ht s hs, c2 s hs⟩) c3 c4
+
+/-- **the assembler accepts exactly the well-formed programs**: a statement list assembles iff it is a sequence of closed,
+    non-nested `.orig … .end` blocks with only `.external` declarations outside them that satisfies `WellFormed` -/
+theorem assemble_ok_iff (stmts : List Stmt) (src : Option (List Char)) :
+    (∃ obj, assemble stmts src = .ok obj) ↔
+    ∃ (blks : List Blk) (tail : List Stmt), stmts = blks.flatMap Blk.stmts ++ tail ∧
+      (∀ b ∈ blks, b.WF ∧ ∀ s ∈ b.gap, isExternal s.nucleus = true) ∧ (∀ s ∈ tail, isExternal s.nucleus = true) ∧
+      WellFormed blks tail src := by
+  constructor
+  · rintro ⟨obj, h⟩
+    obtain ⟨blks, tail, e, s1, s2⟩ := accepted_structure stmts src obj h
+    subst e
+    have hwf : ∀ b ∈ blks, b.WF ∧ ∀ s ∈ b.gap, isExternal s.nucleus = true := fun b hb => ⟨(s1 b hb).1, (s1 b hb).2.2⟩
+    have ht : ∀ s ∈ tail, isExternal s.nucleus = true := fun s hs => (s2 s hs).1
+    exact ⟨blks, tail, rfl, hwf, ht, (assemble_iff blks tail src hwf ht).mp ⟨obj, h⟩⟩
+  · rintro ⟨blks, tail, e, hwf, ht, hw⟩
+    subst e
+    exact (assemble_iff blks tail src hwf ht).mpr hw
+
+
 def obligations : List Lean.Name :=
-  [``assemble_accepts, ``first_pass_accepts, ``binding_ok_iff, ``second_pass_iff, ``second_pass_accepts, ``accepted_structure, ``accepted_operands, ``accepted_blocks_disjoint, ``Lc3V.all_disjoint_of_neighbours, ``shift_zero, ``shift_ok, ``shift_io, ``shift_wrap, ``shift_keeps_flag, ``labels_outside_block, ``nested_orig,
+  [``assemble_ok_iff, ``assemble_iff, ``Lc3V.pass1_iff, ``Lc3V.pass1_blocks_conv, ``assemble_accepts, ``first_pass_accepts, ``binding_ok_iff, ``second_pass_iff, ``second_pass_accepts, ``accepted_structure, ``accepted_operands, ``accepted_blocks_disjoint, ``Lc3V.all_disjoint_of_neighbours, ``shift_zero, ``shift_ok, ``shift_io, ``shift_wrap, ``shift_keeps_flag, ``labels_outside_block, ``nested_orig,
    ``end_without_orig, ``stmt_outside_block, ``unclosed_orig, ``external_operand, ``undefined_operand,
    ``C01.addLabel_spec, ``C01.addLabel_conflict, ``C01.label_operand]
 
